@@ -10,6 +10,7 @@ import json
 import multiprocessing
 import os
 import re
+import signal
 import sys
 import time
 
@@ -62,6 +63,10 @@ def _blank(oid, harness_errors=(), inconclusive=(), notes=()):
 
 def _child(arg, conn):
     try:
+        os.setsid()       # own process group: a hard kill takes the concrete-run server and its children along
+    except OSError:
+        pass
+    try:
         conn.send(_work(arg))
     finally:
         conn.close()
@@ -95,7 +100,10 @@ def run_all(prop, idxs, tier, obs, jobs, verbose=False):
                     r = _blank(obs[i].oid, harness_errors=[f'{obs[i].oid}: worker died without a result'])
                 p.join()
             elif time.time() - ts > limit:
-                p.kill()
+                try:
+                    os.killpg(p.pid, signal.SIGKILL)
+                except OSError:
+                    p.kill()
                 p.join()
                 r = _blank(obs[i].oid, inconclusive=[f'{obs[i].oid}: hard wall-clock limit of {limit} s (solver did not return; whole obligation undecided)'])
             if r is not None:
